@@ -568,26 +568,29 @@ class InverseLaplaceTransformer(UnilateralInverseTransformer):
 
                 try:
                     # See if can convert to convolutions...
-                    return self.product_undef(expr, s, t, **kwargs), Zero
+                    cresult = self.product_undef(expr, s, t, **kwargs)
+                    uresult = Zero
                 except:
-                    pass
 
-                uresult = Zero
-                cresult = Zero
+                    uresult = Zero
+                    cresult = Zero
 
-                for term in terms:
-                    term = term.simplify()
-                    cterm, uterm = self.term(term, s, t, **kwargs)
-                    cresult += cterm
-                    uresult += uterm
-                return cresult, uresult
+                    for term in terms:
+                        term = term.simplify()
+                        cterm, uterm = self.term(term, s, t, **kwargs)
+                        cresult += cterm
+                        uresult += uterm
 
-            expr = expr.simplify()
+                # Do not return here; the delay factored from the
+                # sum still needs to be applied.
 
-            try:
-                cresult, uresult = self.term1(expr, s, t, **kwargs)
-            except:
-                cresult, uresult = Zero, self.sympy(expr, s, t)
+            else:
+                expr = expr.simplify()
+
+                try:
+                    cresult, uresult = self.term1(expr, s, t, **kwargs)
+                except:
+                    cresult, uresult = Zero, self.sympy(expr, s, t)
 
         if delay != 0:
             cresult = sym.sympify(cresult).subs(t, t - delay)
